@@ -14,9 +14,9 @@ import (
 func init() {
 	register(&CheckSpec{
 		ID: "C09", Fn: c09,
-		Rule:        "one evaluation = one predicate call compared with refchess: HasCheck per position (cached flag exercised before/after do-undo), IsAttacked and AttacksTo for all 64 squares x both colours (each call under recover), GivesCheck / IsLegalMove / DoMove+WasLegalMove for every pseudo-legal move; distinct = distinct position identities probed",
+		Rule:        "one evaluation = one predicate call compared with refchess: HasCheck per position (cached flag exercised before/after do-undo, and after every undo of moves and null moves inside a search-like walk on one position object), IsAttacked and AttacksTo for all 64 squares x both colours (each call under recover), GivesCheck / IsLegalMove / DoMove+WasLegalMove for every pseudo-legal move; distinct = distinct position identities probed",
 		Assumptions: []string{"E1/E2 en-passant conventions: required when the ep capture is legal, tolerated when it is only pseudo-legal, forbidden otherwise (incl. for the colour that just pushed)"},
-		Required:    []string{"positions", "attack_queries", "moves_checked", "ep_target_a_or_h_file", "ep_positions_white_to_move", "ep_positions_black_to_move", "e1_required", "e2_required", "castling_pseudo_illegal", "gives_check_true", "discovered_check_by_ep", "in_check_positions"},
+		Required:    []string{"positions", "attack_queries", "moves_checked", "ep_target_a_or_h_file", "ep_positions_white_to_move", "ep_positions_black_to_move", "e1_required", "e2_required", "castling_pseudo_illegal", "gives_check_true", "discovered_check_by_ep", "in_check_positions", "walk_hascheck_tests", "walk_null_moves"},
 		MinEvals:    50000,
 	})
 }
@@ -224,6 +224,13 @@ func c09(c *Ctx) {
 				}
 			}
 		}
+		// search-like walk on the one position object: the cached in-check answer has to stay
+		// right through do/undo of moves and null moves at changing history depths
+		if len(g.Steps) > 0 {
+			last := g.Steps[len(g.Steps)-1].After
+			checkWalk(rep, SubRng(c.Seed, "c09/walk/"+g.Start.FEN(), len(g.Steps)), p, last, 3,
+				map[string]interface{}{"start": g.Start.FEN(), "moves": stepMoves(g.Steps, len(g.Steps))})
+		}
 		if sampled < 2 {
 			sampled++
 			rep.Sample(map[string]interface{}{"fen": g.Start.FEN(), "queries": "HasCheck, 64x2 IsAttacked/AttacksTo, GivesCheck/IsLegalMove/WasLegalMove for all pseudo-legal moves"})
@@ -266,6 +273,59 @@ func c09(c *Ctx) {
 				probe(engPos(b.FEN()), b, "ep-sweep", nil)
 			}
 		}
+	}
+}
+
+// checkWalk walks a small tree below (p, b) the way the search does - in-check test, null
+// move try, then moves - and compares the in-check answer with the rules after every undo.
+func checkWalk(rep *Rep, r *Rng, p *position.Position, b *rc.Board, depth int, ctx map[string]interface{}) {
+	want := b.InCheck(b.White)
+	test := func(when string) {
+		rep.Eval(1)
+		rep.Inc("walk_hascheck_tests")
+		if got := p.HasCheck(); got != want {
+			pl := map[string]interface{}{"fen": b.FEN(), "when": when}
+			for k, v := range ctx {
+				pl[k] = v
+			}
+			rep.Viol("HasCheck:walk:"+when, fmt.Sprintf("HasCheck()=%v %s, king attacked=%v in %s (position reached inside a do/undo walk)", got, when, want, b.FEN()), pl)
+		}
+	}
+	test("on-entry")
+	if depth <= 0 {
+		return
+	}
+	if !want {
+		p.DoNullMove()
+		p.UndoNullMove()
+		rep.Inc("walk_null_moves")
+		test("after-null-undo")
+	}
+	legal := b.Legal()
+	// checking moves first, then a random few
+	var order []rc.Move
+	var rest []rc.Move
+	for _, m := range legal {
+		n := b.Apply(m)
+		if n.InCheck(n.White) {
+			order = append(order, m)
+		} else {
+			rest = append(rest, m)
+		}
+	}
+	if len(order) > 2 {
+		order = order[:2]
+	}
+	for k := 0; k < 3 && len(rest) > 0; k++ {
+		i := r.Intn(len(rest))
+		order = append(order, rest[i])
+		rest = append(rest[:i], rest[i+1:]...)
+	}
+	for _, m := range order {
+		p.DoMove(toEng(m))
+		checkWalk(rep, r, p, b.Apply(m), depth-1, ctx)
+		p.UndoMove()
+		test("after-undo")
 	}
 }
 
